@@ -8,6 +8,7 @@ from struct import error as StructError
 from typing import Any, Awaitable, Callable, Dict, List, Optional, Set, Tuple, Type, TypeVar, Union
 from .broker import AbstractBroker, SimpleBroker
 from .correlator import (
+    STATUS_EXPIRED,
     STATUS_SENDING,
     STATUS_SENT,
     AbstractCorrelator,
@@ -707,6 +708,15 @@ class ESME:
             if segment_status:
                 if status_code == STATUS_SENDING:
                     # All segments are not processed yet, return placeholder
+                    smpp_message = _SUBMIT_SM_SEGMENT
+                elif status_code == STATUS_EXPIRED:
+                    # This was the last response, but other segments have timed out before.
+                    # The message as a whole has failed, and nobody reported it yet.
+                    await self.hook.send_error(
+                        segment_status.orig_submit_sm,
+                        TimeoutError('No response to command received within timeout'),
+                        self.client_id,
+                    )
                     smpp_message = _SUBMIT_SM_SEGMENT
                 else:
                     # Use last pertinent segment response
